@@ -24,3 +24,35 @@ package common
 //@   -- nil exactly when no done-marker is stored for (chainID, crossChainID); storage is not touched
 //@   ensures err == nil ==> Store[doneKey(crossChainID, chainID)] == None
 //@   ensures Store[doneKey(crossChainID, chainID)] != None ==> err != nil
+
+// ---- chain blacklist (C21) -----------------------------------------------------------------------
+//@ spec blackKey(chainID uint64) KeyT = K2(utils.CrossChainManagerContractAddress, "BlackedChain", u64le(chainID))
+
+//@ func PutBlackChain
+//@   property C21
+//@   mode abstract
+//@   requires native != nil
+//@   modifies Store
+//@   ensures Store == upd(old(Store), blackKey(chainID), Store[blackKey(chainID)]) && Store[blackKey(chainID)] != None
+
+//@ func RemoveBlackChain
+//@   property C21
+//@   mode abstract
+//@   requires native != nil
+//@   modifies Store
+//@   ensures Store == upd(old(Store), blackKey(chainID), None)
+
+//@ func CheckIfChainBlacked
+//@   property C21
+//@   mode abstract
+//@   requires native != nil
+//@   modifies nothing
+//@   -- reports "not blacked" only when no blacklist record exists for the chain
+//@   ensures r1 == nil ==> (r0 <==> Store[blackKey(chainID)] != None)
+//@   ensures r1 != nil ==> r0
+
+//@ func NotifyMakeProof
+//@   property C22
+//@   mode abstract
+//@   requires native != nil
+//@   modifies native.notifications
